@@ -2,7 +2,8 @@
 (* Outbound header pipeline on a server: every catalogue block as response / informational response /       *)
 (* trailers on a request stream and as the request of a push.                                                *)
 EXTENDS Scn
-Names == DOMAIN HL
+\* (the sized lists of the catalogue belong to MC_BigC / MC_BigS)
+Names == {n \in DOMAIN HL : BL0[n] < 1000}
 mcRoles == {"s"}
 mcCallsC == {}
 mcCallsS ==
